@@ -1,4 +1,5 @@
 import JsonPathVerif.Lex.Int
+import JsonPathVerif.Lex.Names
 import JsonPathVerif.Parser
 import JsonPathVerif.Validity
 /-! # C07 – every string that is not a valid RFC 9535 query is rejected (lexical layers on the GENERATED grammar) -/
@@ -13,6 +14,21 @@ no leading zero, no `-0`, no `+` – and stops right after it -/
 theorem C07_partial_int (c : Ctx) (pos : Nat) (r : Rest) (s : St RuleId) (h : int_ c pos r = some s) :
     rfcInt r = some s.rest := by
   have := int_spec c pos r
+  rw [h] at this
+  simpa using this.symm
+
+/-- layer 4a, soundness: the `member_name_shorthand` rule accepts nothing but an RFC shorthand name and stops right after it
+(`$.a b` cannot be read as the name `a b`) -/
+theorem C07_partial_shorthand (c : Ctx) (pos : Nat) (r : Rest) (s : St RuleId) (h : member_name_shorthand_ c pos r = some s) :
+    rfcShorthand r = some s.rest := by
+  have := member_name_shorthand_spec c pos r
+  rw [h] at this
+  simpa using this.symm
+
+/-- layer 6a, soundness: no blank or upper-case letter inside a function name (`le ngth`, `Length`) -/
+theorem C07_partial_function_name (c : Ctx) (pos : Nat) (r : Rest) (s : St RuleId) (h : function_name_ c pos r = some s) :
+    rfcFunctionName r = some s.rest := by
+  have := function_name_spec c pos r
   rw [h] at this
   simpa using this.symm
 
